@@ -37,6 +37,10 @@ def gen_signal_program(rng: random.Random) -> dict:
             node = {"name": nn, "kind": "interrupt", "params": [[src, None]], "dataOuts": [out], "body": {"b": "handler", "k": 1}}
             data.append(out)
             async_only = True
+            if rng.random() < 0.4:
+                # the resume path: the handler pauses, but the caller's response is already supplied
+                node["body"] = {"b": "handler", "k": None}
+                values.append([out, rng.randint(10, 20)])
         if rng.random() < 0.6:
             sig = names.fresh("s")
             node["emits"] = [sig]
